@@ -1,6 +1,7 @@
 package core
 
 import (
+	"os"
 	"strings"
 	"bytes"
 	"fmt"
@@ -181,9 +182,11 @@ func NormaliseOverlay(p *Program, keep func(*types.Func) bool, opts NormaliseOpt
 	for f := range in.changed {
 		var buf bytes.Buffer
 		// positions of spliced nodes are meaningless: print without them
-		if err := printer.Fprint(&buf, token.NewFileSet(), stripPos(f)); err != nil {
+		b := printOverlayFile(p, f)
+		if b == nil {
 			return nil, nil
 		}
+		buf.Write(b)
 		out[p.Fset.Position(f.Pos()).Filename] = buf.Bytes()
 	}
 	var names []string
@@ -1961,9 +1964,11 @@ func TailDupOverlay(p *Program) (map[string][]byte, []string) {
 	out := map[string][]byte{}
 	for f := range changed {
 		var buf bytes.Buffer
-		if err := printer.Fprint(&buf, token.NewFileSet(), stripPos(f)); err != nil {
+		b := printOverlayFile(p, f)
+		if b == nil {
 			return nil, nil
 		}
+		buf.Write(b)
 		out[p.Fset.Position(f.Pos()).Filename] = buf.Bytes()
 	}
 	sort.Strings(names)
@@ -2180,4 +2185,52 @@ func simplifyBoolConsts(body *ast.BlockStmt) {
 		}
 		return true
 	})
+}
+
+// printOverlayFile prints a rewritten file. Everything in front of the package clause — build
+// constraints, or comment lines that merely look like one because no blank line follows — decides
+// whether the compiler sees the file at all, and go/printer re-flows comments of a tree whose
+// positions no longer mean anything. So that part is taken verbatim from the text the program was
+// loaded from, and the comments in front of the package clause are dropped from the tree.
+func printOverlayFile(p *Program, f *ast.File) []byte {
+	name := p.Fset.Position(f.Pos()).Filename
+	src, ok := p.Sources[name]
+	if !ok {
+		b, err := os.ReadFile(name)
+		if err != nil {
+			return nil
+		}
+		src = b
+	}
+	off := p.Fset.Position(f.Package).Offset
+	if off < 0 || off > len(src) {
+		return nil
+	}
+	header := src[:off]
+	var kept []*ast.CommentGroup
+	for _, cg := range f.Comments {
+		if cg.End() <= f.Package {
+			continue
+		}
+		kept = append(kept, cg)
+	}
+	f.Comments = kept
+	f.Doc = nil
+	var buf bytes.Buffer
+	if err := printer.Fprint(&buf, token.NewFileSet(), stripPos(f)); err != nil {
+		return nil
+	}
+	out := buf.Bytes()
+	i := bytes.Index(out, []byte("package "))
+	for i > 0 && out[i-1] != '\n' {
+		j := bytes.Index(out[i+1:], []byte("package "))
+		if j < 0 {
+			return nil
+		}
+		i += 1 + j
+	}
+	if i < 0 {
+		return nil
+	}
+	return append(append([]byte{}, header...), out[i:]...)
 }
